@@ -225,3 +225,76 @@ func sameOwnerRace(c *common.Ctx) error {
 	c.Distinct("same-owner-race")
 	return nil
 }
+
+// rangeInterference: a request over a range while another owner acts between its steps (the schedule is fixed through
+// the lock-state hook). Owner A holds READ1 exclusively, owner B READ2; A asks for READ1..READ2 shared - refused
+// because of B. Owner C asks for READ1 shared the moment READ1 stops being exclusive, if it ever does. A refused
+// request changes nothing: A still holds READ1 exclusively afterwards, C has nothing.
+func rangeInterference(c *common.Ctx) error {
+	dir, err := os.MkdirTemp(c.OutDir, "c12i-")
+	if err != nil {
+		return err
+	}
+	defer os.RemoveAll(dir)
+	n, err := lfs.Open(dir, true)
+	if err != nil {
+		return err
+	}
+	defer n.Close()
+	db, f, err := n.Store.CreateDB("db")
+	if err != nil {
+		return err
+	}
+	_ = f.Close()
+	ctx := context.Background()
+	const A, B, C = 11, 12, 13
+	armed, cGot := false, false
+	db.VerifSetLockHook(func(t litefs.LockType, prev, next litefs.RWMutexState) {
+		if armed && t == litefs.LockTypeRead1 && prev == litefs.RWMutexStateExclusive && next != litefs.RWMutexStateExclusive {
+			armed = false
+			cGot = db.TryRLocks(ctx, C, []litefs.LockType{litefs.LockTypeRead1})
+		}
+	})
+	r1, r2 := []litefs.LockType{litefs.LockTypeRead1}, []litefs.LockType{litefs.LockTypeRead2}
+	both := []litefs.LockType{litefs.LockTypeRead1, litefs.LockTypeRead2}
+	okA, _ := db.TryLocks(ctx, A, r1)
+	okB, _ := db.TryLocks(ctx, B, r2)
+	if !okA || !okB {
+		return fmt.Errorf("setup: exclusive READ1/READ2 refused (%v, %v)", okA, okB)
+	}
+	armed = true
+	got := db.TryRLocks(ctx, A, both)
+	armed = false
+	c.Evaluations++
+	c.Distinct("range-interference:shared-refused")
+	st1 := db.VerifLockState(litefs.LockTypeRead1)
+	upA, _ := db.TryLocks(ctx, A, r1) // a no-op for the holder of the exclusive lock
+	rep := map[string]any{"kind": "range-interference", "shape": "shared request over READ1..READ2 by the exclusive holder of READ1, refused at READ2"}
+	if got || st1 != litefs.RWMutexStateExclusive || cGot || !upA {
+		c.Violate("C12:range-interference:shared", fmt.Sprintf("owner A holds READ1 exclusively and asks for READ1..READ2 shared while B holds READ2 exclusively: granted=%v; afterwards READ1 is %v (want Exclusive), another owner's shared request on READ1 in between was granted=%v, A's exclusive request on its own lock: %v", got, st1, cGot, upA), rep)
+		return nil
+	}
+	// the same request once B has let go: granted, both shared (READ1 downgraded)
+	_ = db.Unlock(ctx, B, r2)
+	got = db.TryRLocks(ctx, A, both)
+	s1, s2 := db.VerifLockState(litefs.LockTypeRead1), db.VerifLockState(litefs.LockTypeRead2)
+	cNow := db.TryRLocks(ctx, C, both)
+	c.Evaluations++
+	c.Distinct("range-interference:shared-granted")
+	if !got || s1 != litefs.RWMutexStateShared || s2 != litefs.RWMutexStateShared || !cNow {
+		c.Violate("C12:range-interference:downgrade", fmt.Sprintf("owner A (READ1 exclusive) asks for READ1..READ2 shared with nobody in the way: granted=%v, READ1 %v READ2 %v (want Shared, Shared), another owner's shared request afterwards: %v", got, s1, s2, cNow), rep)
+		return nil
+	}
+	_ = db.Unlock(ctx, C, both)
+	// an exclusive request over the range by the shared holder of both, refused at READ2 (B shares it): READ1 is shared again
+	okB = db.TryRLocks(ctx, B, r2)
+	gotX, _ := db.TryLocks(ctx, A, both)
+	s1, s2 = db.VerifLockState(litefs.LockTypeRead1), db.VerifLockState(litefs.LockTypeRead2)
+	cNow = db.TryRLocks(ctx, C, r1)
+	c.Evaluations++
+	c.Distinct("range-interference:exclusive-refused")
+	if !okB || gotX || s1 != litefs.RWMutexStateShared || s2 != litefs.RWMutexStateShared || !cNow {
+		c.Violate("C12:range-interference:exclusive", fmt.Sprintf("owner A shares READ1 and READ2 (B shares READ2) and asks for both exclusively: granted=%v; afterwards READ1 %v READ2 %v (want Shared, Shared), another owner's shared request on READ1: %v", gotX, s1, s2, cNow), rep)
+	}
+	return nil
+}
